@@ -170,7 +170,7 @@ func showBytes(s string) string {
 
 // replacement policies for ill-formed input
 func replacePerByte(s string) string { return string([]rune(s)) }
-func replacePerRun(s string) string  { return strings.ToValidUTF8(s, "�") }
+func replacePerRun(s string) string  { return strings.ToValidUTF8(s, "\ufffd") }
 
 func allowedReplacement(x, r string) bool {
 	return r == replacePerByte(x) || r == replacePerRun(x)
@@ -706,6 +706,9 @@ func exhaustiveSweeps() {
 				report("ret-setpath", rc, doRetSet(rc))
 			}
 			for _, law := range []string{"fromstream", "replay", "paths-rebuild", "tojson"} {
+				if law == "replay" && n == 1000 && vi == 3 { // thousands of retained states of thousands of nodes: too much memory for no new shape
+					continue
+				}
 				bc := batchCase{Law: law, Args: univ.V{X: []any{v, []any{v, 1}}}}
 				if _, ok := v.(map[string]any); ok && law == "tojson" {
 					bc.Law = "entries"
